@@ -275,8 +275,13 @@ def run_harness(prop, seed, n, outdir, extra=None):
             f = line.rstrip("\n").split("\t")
             if len(f) < 6:
                 continue
+            try:
+                human = json.loads(f[5])
+            except ValueError:
+                rc = rc or 3          # a line cut short: the harness died while writing
+                continue
             cases.append({"idx": i, "in": f[0], "out": f[1], "ok": f[2] == "1", "key": f[3], "why": f[4],
-                          "human": json.loads(f[5])})
+                          "human": human})
     try:
         dist = json.load(open(os.path.join(outdir, "dist.json")))
     except Exception:
